@@ -153,23 +153,23 @@ type Violation struct {
 }
 
 type World struct {
-	Seed      uint64
-	Serial    bool // one delivery per step (true) or several concurrently (false)
-	NonFIFO   bool // links may reorder (default: reliable FIFO per direction)
+	Seed    uint64
+	Serial  bool // one delivery per step (true) or several concurrently (false)
+	NonFIFO bool // links may reorder (default: reliable FIFO per direction)
 	// JoinProposals: in concurrent-dispatch mode scenario events (API calls, cancellations) may be started in the
 	// same step as deliveries and as one another (C20)
 	JoinProposals bool
-	MaxConc   int
-	Nodes     map[uint16]*Node
-	Links     map[[2]uint16]*Link
-	Step      int
-	Actions   []Action
-	WireLog   []*Msg // every message put on a link, post filter
-	Delivered []*Msg
-	Calls     []*Call
-	Panics    []PanicRec
-	Faults    map[string]int
-	Probes    map[string]int
+	MaxConc       int
+	Nodes         map[uint16]*Node
+	Links         map[[2]uint16]*Link
+	Step          int
+	Actions       []Action
+	WireLog       []*Msg // every message put on a link, post filter
+	Delivered     []*Msg
+	Calls         []*Call
+	Panics        []PanicRec
+	Faults        map[string]int
+	Probes        map[string]int
 	// Filter is applied to every message a node sends, in canonical order, at seal
 	// time. It returns the messages that actually go on the wire (possibly none,
 	// possibly altered, duplicated or redirected). nil = identity.
